@@ -26,7 +26,8 @@ Proof.
 Qed.
 
 Record gctx := { g_sc : list frame; g_pc : nat; g_st : list sv; g_base : list fork; g_own : nat -> Prop;
-                 g_keep : nat -> Prop; g_ce : cenv; g_n0 : nat; g_off : nat; g_koff : nat; g_ctr : nat }.
+                 g_keep : nat -> Prop; g_keep0 : nat -> Prop; g_ce : cenv; g_n0 : nat; g_off : nat; g_koff : nat;
+                 g_ctr : nat }.
 
 (* counters that never decrease: env.label and the ghost push counter *)
 Definition cle (n : nat) (g : gx) (n' : nat) (g' : gx) : Prop := n <= n' /\ ctr g <= ctr g'.
@@ -35,26 +36,36 @@ Proof. split; lia. Qed.
 Lemma cle_trans : forall a b c d e f, cle a b c d -> cle c d e f -> cle a b e f.
 Proof. unfold cle; intros; lia. Qed.
 
-Definition keepS (c : gctx) (o3 : nat) (s s' : list sv) : Prop :=
-  length s <= length s' /\ forall i, (g_keep c i \/ g_koff c <= i < o3) -> nth_error s i = nth_error s' i.
-(* what every continuation keeps: the kept variables *)
-Definition keepK (c : gctx) (s s' : list sv) : Prop :=
-  length s <= length s' /\ forall i, g_keep c i -> nth_error s i = nth_error s' i.
-(* the area above the keep offset (frames of closures that pending forks may re-enter) has to be kept only
-   while the generator has pending forks of its own *)
-Definition keepS' (c : gctx) (o3 : nat) (fk' : list fork) (s s' : list sv) : Prop :=
-  match fk' with [] => keepK c s s' | _ => keepS c o3 s s' end.
+(* what a continuation promises: the slots in K are not written (the store may grow) *)
+Definition keepX (K : nat -> Prop) (s s' : list sv) : Prop :=
+  length s <= length s' /\ forall i, K i -> nth_error s i = nth_error s' i.
+Lemma keepX_refl : forall K s, keepX K s s.
+Proof. split; auto. Qed.
+Lemma keepX_mono : forall (K K' : nat -> Prop) s s', (forall i, K' i -> K i) -> keepX K s s' -> keepX K' s s'.
+Proof. intros K K' s s' H [L C]. split; auto. Qed.
+Lemma keepX_trans : forall K a b c, keepX K a b -> keepX K b c -> keepX K a c.
+Proof. intros K a b c [L1 H1] [L2 H2]. split; [lia|]. intros i Hi. rewrite H1, H2; auto. Qed.
+
+(* while the generator has pending forks of its own, the continuation keeps the slots g_keep and the area
+   between the keep offset and the offset at the emission (frames of closures that those forks may re-enter) *)
+Definition keepS (c : gctx) (o3 : nat) : list sv -> list sv -> Prop :=
+  keepX (fun i => g_keep c i \/ g_koff c <= i < o3).
+Definition keepK (c : gctx) : list sv -> list sv -> Prop := keepX (g_keep c).
+(* after an emission that leaves no fork of the generator behind, the generator is over: the continuation
+   only keeps the slots g_keep0 (the frames of the closures the generator called may have been freed and reused) *)
+Definition keepK0 (c : gctx) : list sv -> list sv -> Prop := keepX (g_keep0 c).
+Definition keepS' (c : gctx) (o3 : nat) (fk' : list fork) : list sv -> list sv -> Prop :=
+  match fk' with [] => keepK0 c | _ => keepS c o3 end.
 Lemma keepS_K : forall c o s s', keepS c o s s' -> keepK c s s'.
 Proof. intros c o s s' [L H]. split; auto. Qed.
-Lemma keepS'_K : forall c o f s s', keepS' c o f s s' -> keepK c s s'.
-Proof. intros c o [|x f] s s' H; simpl in H; [auto|eapply keepS_K; eauto]. Qed.
 Lemma keepK_refl : forall c s, keepK c s s.
+Proof. split; auto. Qed.
+Lemma keepK0_refl : forall c s, keepK0 c s s.
+Proof. split; auto. Qed.
+Lemma keepS_refl : forall c o s, keepS c o s s.
 Proof. split; auto. Qed.
 
 Definition okerr (n0 : nat) (x : verr) : Prop := match x with VE (EB n) => n < n0 | _ => True end.
-
-Lemma keepS_refl : forall c o s, keepS c o s s.
-Proof. split; auto. Qed.
 
 (* the address of a variable reference in a scope chain *)
 Definition encR (sc : list frame) (ce : cenv) (vs : list sv) (fin : option exn) (e : option verr) : Prop :=
@@ -95,7 +106,9 @@ Variable code : list instr.
 
 Notation steps := (steps nt code).
 
-Fixpoint G (c : gctx) (ws : list jv) (T : state -> Prop) (s : state) : Prop :=
+(* T: the state after the enumeration ended by backtracking; Tw: the state when the machine comes back to
+   the base forks after a last output that left no fork of the generator behind *)
+Fixpoint G2 (c : gctx) (ws : list jv) (T Tw : state -> Prop) (s : state) : Prop :=
   match ws with
   | [] => exists s', steps s s' /\ chg (g_own c) (vars_of s) (vars_of s') /\
                      cle (lbl_of s) (gx_of s) (lbl_of s') (gx_of s') /\ T s'
@@ -103,61 +116,82 @@ Fixpoint G (c : gctx) (ws : list jv) (T : state -> Prop) (s : state) : Prop :=
        steps s (N (g_sc c) (g_pc c) (SV w :: g_st c) (fk' ++ g_base c) vs3 n3 o3 g3) /\
        chg (g_own c) (vars_of s) vs3 /\ cle (lbl_of s) (gx_of s) n3 g3 /\
        (g_off c <= o3 <= length vs3 /\ Forall (fun f => g_ctr c <= f_ctr f) fk') /\
-       forall vs2 n2 g2, keepS' c o3 fk' vs3 vs2 -> cle n3 g3 n2 g2 ->
-         G c ws' T (B None (fk' ++ g_base c) vs2 n2 g2) /\
-         (forall x, okerr (g_n0 c) x -> exists vs4 n4 g4,
-             steps (B (Some x) (fk' ++ g_base c) vs2 n2 g2) (B (Some x) (g_base c) vs4 n4 g4) /\
-             chg (g_own c) vs2 vs4 /\ cle n2 g2 n4 g4)
+       match fk' with
+       | [] => ws' = [] /\
+               forall vs2 n2 g2, keepK0 c vs3 vs2 -> cle n3 g3 n2 g2 -> Tw (B None (g_base c) vs2 n2 g2)
+       | _ :: _ =>
+           forall vs2 n2 g2, keepS c o3 vs3 vs2 -> cle n3 g3 n2 g2 ->
+             G2 c ws' T Tw (B None (fk' ++ g_base c) vs2 n2 g2) /\
+             (forall x, okerr (g_n0 c) x -> exists vs4 n4 g4,
+                 steps (B (Some x) (fk' ++ g_base c) vs2 n2 g2) (B (Some x) (g_base c) vs4 n4 g4) /\
+                 chg (g_own c) vs2 vs4 /\ cle n2 g2 n4 g4)
+       end
   end.
+
+Notation G c ws T := (G2 c ws T T).
 
 (* the end of an enumeration: the machine backtracks into the base forks with the error state of fin *)
 Definition Tend (c : gctx) (fin : option exn) (P : list sv -> nat -> gx -> Prop) (s : state) : Prop :=
   exists e vs n g, steps s (B e (g_base c) vs n g) /\ chg (g_own c) (vars_of s) vs /\
                    cle (lbl_of s) (gx_of s) n g /\ encR (g_sc c) (g_ce c) vs fin e /\ P vs n g.
 
-Lemma G_pre : forall c ws T s s1,
+Lemma G_pre : forall c ws T Tw s s1,
   steps s s1 -> chg (g_own c) (vars_of s) (vars_of s1) -> cle (lbl_of s) (gx_of s) (lbl_of s1) (gx_of s1) ->
-  G c ws T s1 -> G c ws T s.
+  G2 c ws T Tw s1 -> G2 c ws T Tw s.
 Proof.
-  intros c ws T s s1 St Ch Le HG. destruct ws; simpl in *.
+  intros c ws T Tw s s1 St Ch Le HG. destruct ws; simpl in *.
   - destruct HG as (s' & St' & Ch' & Le' & HT). exists s'.
     split; [eapply steps_trans; eauto|]. split; [eapply chg_trans; eauto|]. split; [eapply cle_trans; eauto|auto].
   - destruct HG as (fk' & vs3 & n3 & o3 & g3 & St' & Ch' & Le' & R). exists fk', vs3, n3, o3, g3.
     split; [eapply steps_trans; eauto|]. split; [eapply chg_trans; eauto|]. split; [eapply cle_trans; eauto|auto].
 Qed.
 
-Lemma G_impl : forall c (T T' : state -> Prop) ws s, (forall s, T s -> T' s) -> G c ws T s -> G c ws T' s.
+Lemma G2_impl : forall c (T T' Tw Tw' : state -> Prop) ws s,
+  (forall s, T s -> T' s) -> (forall s, Tw s -> Tw' s) -> G2 c ws T Tw s -> G2 c ws T' Tw' s.
 Proof.
-  intros c T T' ws. induction ws; simpl; intros s HT HG.
+  intros c T T' Tw Tw' ws. induction ws; simpl; intros s HT HTw HG.
   - destruct HG as (s' & ? & ? & ? & ?). exists s'. auto.
   - destruct HG as (fk' & vs3 & n3 & o3 & g3 & St & Ch & Le & Ho & R). exists fk', vs3, n3, o3, g3.
-    split; [auto|]. split; [auto|]. split; [auto|]. split; [auto|]. intros vs2 n2 g2 K L2.
-    destruct (R vs2 n2 g2 K L2) as [R1 R2]. split; auto.
+    split; [auto|]. split; [auto|]. split; [auto|]. split; [auto|].
+    destruct fk' as [|f0 fk0].
+    + destruct R as [E R]. split; auto.
+    + intros vs2 n2 g2 K L2. destruct (R vs2 n2 g2 K L2) as [R1 R2]. split; auto.
 Qed.
+Lemma G_impl : forall c (T T' : state -> Prop) ws s, (forall s, T s -> T' s) -> G c ws T s -> G c ws T' s.
+Proof. intros. eapply G2_impl; eauto. Qed.
 
-Lemma G_app : forall c ws1 ws2 T s, G c ws1 (G c ws2 T) s -> G c (ws1 ++ ws2) T s.
+(* sequencing.  The first enumeration may end with a forkless output only if nothing follows *)
+Lemma G_app : forall c ws1 ws2 T s, G2 c ws1 (G2 c ws2 T T) (fun s => ws2 = [] /\ T s) s -> G c (ws1 ++ ws2) T s.
 Proof.
   intros c ws1. induction ws1; simpl; intros ws2 T s HG.
   - destruct HG as (s' & St & Ch & Le & H). eapply G_pre; eauto.
   - destruct HG as (fk' & vs3 & n3 & o3 & g3 & St & Ch & Le & Ho & R). exists fk', vs3, n3, o3, g3.
-    split; [auto|]. split; [auto|]. split; [auto|]. split; [auto|]. intros vs2 n2 g2 K L2.
-    destruct (R vs2 n2 g2 K L2) as [R1 R2]. split; auto.
+    split; [auto|]. split; [auto|]. split; [auto|]. split; [auto|].
+    destruct fk' as [|f0 fk0].
+    + destruct R as [E R]. subst ws1. simpl.
+      destruct (R vs3 n3 g3 (keepK0_refl _ _) (cle_refl _ _)) as [E2 _]. split; [exact E2|].
+      intros vs2 n2 g2 K L2. apply (R vs2 n2 g2 K L2).
+    + intros vs2 n2 g2 K L2. destruct (R vs2 n2 g2 K L2) as [R1 R2]. split; auto.
 Qed.
+Lemma G_app_nil : forall c ws T s, G c [] (G2 c ws T T) s -> G c ws T s.
+Proof. intros c ws T s (s' & St & Ch & Le & H). eapply G_pre; eauto. Qed.
 
-(* change of context: the forks fx that lie between the two bases are transparent to errors *)
-Lemma G_ctx : forall cb c fx (Q : list sv -> nat -> gx -> Prop) (T T' : state -> Prop),
+(* change of context: the forks fx that lie between the two bases are transparent to errors.  When fx is not
+   empty no output in the target context is forkless, so its second tail is arbitrary *)
+Lemma G_ctx : forall cb c fx (Q : list sv -> nat -> gx -> Prop) (T Tw T' Tw' : state -> Prop),
   g_sc cb = g_sc c -> g_pc cb = g_pc c -> g_st cb = g_st c -> g_base cb = fx ++ g_base c ->
   (forall i, g_own cb i -> g_own c i) ->
-  (forall o a b, keepS c o a b -> keepS cb o a b) -> (forall a b, keepK c a b -> keepK cb a b) ->
+  (forall o a b, keepS c o a b -> keepS cb o a b) -> (forall o a b, keepS' c o fx a b -> keepK0 cb a b) ->
   g_n0 c <= g_n0 cb -> g_off c <= g_off cb -> g_ctr c <= g_ctr cb -> Forall (fun f => g_ctr c <= f_ctr f) fx ->
   (forall a b n g n' g', Q a n g -> chg (g_own cb) a b -> cle n g n' g' -> Q b n' g') ->
   (forall o f a b n g n' g', g_off cb <= o -> Q a n g -> keepS' c o (f ++ fx) a b -> cle n g n' g' -> Q b n' g') ->
   (forall x vs n g, Q vs n g -> okerr (g_n0 c) x -> exists vs4 n4 g4,
       steps (B (Some x) (fx ++ g_base c) vs n g) (B (Some x) (g_base c) vs4 n4 g4) /\ chg (g_own c) vs vs4 /\ cle n g n4 g4) ->
   (forall s, Q (vars_of s) (lbl_of s) (gx_of s) -> T s -> T' s) ->
-  forall ws s, Q (vars_of s) (lbl_of s) (gx_of s) -> G cb ws T s -> G c ws T' s.
+  (forall s, Q (vars_of s) (lbl_of s) (gx_of s) -> Tw s -> match fx with [] => Tw' s | _ => T' s end) ->
+  forall ws s, Q (vars_of s) (lbl_of s) (gx_of s) -> G2 cb ws T Tw s -> G2 c ws T' Tw' s.
 Proof.
-  intros cb c fx Q T T' Hsc Hpc Hst Hbase Hown Hkeep HkeepK Hn0 Hoff Hctr Hfx Q1 Q2 Htr Hmap.
+  intros cb c fx Q T Tw T' Tw' Hsc Hpc Hst Hbase Hown Hkeep HkeepK Hn0 Hoff Hctr Hfx Q1 Q2 Htr Hmap Hmapw.
   induction ws; simpl; intros s HQ HG.
   - destruct HG as (s' & St & Ch & Le & HT). exists s'.
     split; [auto|]. split; [eapply chg_mono; eauto|]. split; [auto|].
@@ -166,22 +200,31 @@ Proof.
     exists (fk' ++ fx), vs3, n3, o3, g3. rewrite <- app_assoc, <- Hbase, <- Hpc, <- Hst, <- Hsc.
     split; [auto|]. split; [eapply chg_mono; eauto|]. split; [auto|].
     split; [split; [lia|]; apply Forall_app; split; [eapply Forall_impl; [|exact Hfk]; simpl; intros; lia|exact Hfx]|].
-    intros vs2 n2 g2 K L2.
-    assert (HQ2 : Q vs2 n2 g2). { eapply Q2; [exact (proj1 Ho)|eapply Q1; [exact HQ|exact Ch|exact Le]|eauto|auto]. }
-    assert (K' : keepS' cb o3 fk' vs3 vs2).
-    { destruct fk' as [|f0 fk0]; simpl in *.
-      - apply HkeepK. eapply keepS'_K; eauto.
-      - apply Hkeep. exact K. }
-    destruct (R vs2 n2 g2 K' L2) as [R1 R2]. split.
-    + apply (IHws (B None (fk' ++ g_base cb) vs2 n2 g2)); auto.
-    + intros x Hx.
-      assert (Hx' : okerr (g_n0 cb) x). { destruct x as [[]|]; simpl in *; auto. lia. }
-      destruct (R2 x Hx') as (vs4 & n4 & g4 & St4 & Ch4 & Le4).
-      assert (HQ4 : Q vs4 n4 g4) by (eapply Q1; eauto).
-      rewrite Hbase in St4.
-      destruct (Htr x vs4 n4 g4 HQ4 Hx) as (vs5 & n5 & g5 & St5 & Ch5 & Le5).
-      exists vs5, n5, g5. rewrite Hbase. split; [exact (steps_trans _ _ _ _ _ St4 St5)|]. split; [|eapply cle_trans; eauto].
-      eapply chg_trans; [eapply chg_mono; eauto|auto].
+    assert (HQ3 : Q vs3 n3 g3) by (eapply Q1; [exact HQ|exact Ch|exact Le]).
+    destruct fk' as [|f0 fk0].
+    + destruct R as [E R]. subst ws. simpl app.
+      destruct fx as [|x0 fx0].
+      * split; [reflexivity|]. intros vs2 n2 g2 K L2.
+        assert (HQ2 : Q vs2 n2 g2) by (eapply (Q2 o3 []); [exact (proj1 Ho)|exact HQ3|exact K|exact L2]).
+        simpl in Hbase. rewrite <- Hbase. apply Hmapw; [exact HQ2|]. apply R; [|exact L2]. apply (HkeepK o3). exact K.
+      * intros vs2 n2 g2 K L2.
+        assert (HQ2 : Q vs2 n2 g2) by (eapply (Q2 o3 []); [exact (proj1 Ho)|exact HQ3|exact K|exact L2]).
+        split.
+        -- simpl. exists (B None (g_base cb) vs2 n2 g2). split; [apply steps_refl|]. split; [apply chg_refl|]. split; [apply cle_refl|].
+           apply Hmapw; [exact HQ2|]. apply R; [|exact L2]. apply (HkeepK o3). exact K.
+        -- intros x Hx. rewrite Hbase. apply Htr; auto.
+    + simpl app. intros vs2 n2 g2 K L2.
+      assert (HQ2 : Q vs2 n2 g2) by (eapply (Q2 o3 (f0 :: fk0)); [exact (proj1 Ho)|exact HQ3|exact K|exact L2]).
+      destruct (R vs2 n2 g2 (Hkeep _ _ _ K) L2) as [R1 R2]. split.
+      * apply (IHws (B None ((f0 :: fk0) ++ g_base cb) vs2 n2 g2)); auto.
+      * intros x Hx.
+        assert (Hx' : okerr (g_n0 cb) x). { destruct x as [[]|]; simpl in *; auto. lia. }
+        destruct (R2 x Hx') as (vs4 & n4 & g4 & St4 & Ch4 & Le4).
+        assert (HQ4 : Q vs4 n4 g4) by (eapply Q1; eauto).
+        rewrite Hbase in St4.
+        destruct (Htr x vs4 n4 g4 HQ4 Hx) as (vs5 & n5 & g5 & St5 & Ch5 & Le5).
+        exists vs5, n5, g5. rewrite Hbase. split; [exact (steps_trans _ _ _ _ _ St4 St5)|]. split; [|eapply cle_trans; eauto].
+        eapply chg_trans; [eapply chg_mono; eauto|auto].
 Qed.
 
 Lemma encR_some : forall sc ce vs ex e, encR sc ce vs (Some ex) e -> exists y, e = Some y.
@@ -191,16 +234,22 @@ Proof. intros sc ce ce' vs [[e0|l]|] e H HE; simpl in *; auto. rewrite <- H. aut
 
 (* the generic composition: an inner generator (context c1) whose every output starts a body that is
    itself a generator towards the outer exit (context c), with a ghost state g evolving along the way
-   and an invariant J g on the store *)
+   and an invariant J g on the store.  Jf g is the part of the invariant that survives a continuation
+   that runs after the last fork of the composition is gone *)
 Section Fold.
-Variables (c1 c : gctx) (X : Type) (J : X -> list sv -> nat -> gx -> Prop)
+Variables (c1 c : gctx) (X : Type) (J Jf : X -> list sv -> nat -> gx -> Prop)
           (fb : X -> jv -> list jv * option exn * X)
           (ownb0 : nat -> Prop) (ceb : cenv).
-(* the body entered at offset o with push counter t: it writes its lexical slots ownb0 and the area from o on *)
+(* the body entered at offset o with push counter t, the inner generator having left the forks fk' behind: it
+   writes its lexical slots ownb0 and the area from o on; while fk' is pending even a forkless output of the
+   body is followed by a continuation that keeps everything the composition needs *)
 Definition cbody (fk' : list fork) (o : nat) (t : nat) : gctx :=
   {| g_sc := g_sc c; g_pc := g_pc c; g_st := g_st c; g_base := fk' ++ g_base c;
      g_own := fun i => ownb0 i \/ o <= i; g_keep := g_keep c;
+     g_keep0 := match fk' with [] => g_keep0 c | _ => g_keep c end;
      g_ce := ceb; g_n0 := g_n0 c; g_off := o; g_koff := g_koff c; g_ctr := t |}.
+Definition wk (fk' : list fork) (P Pf : list sv -> nat -> gx -> Prop) : list sv -> nat -> gx -> Prop :=
+  match fk' with [] => Pf | _ => P end.
 
 Fixpoint foldgen (ws : list jv) (g : X) : list jv * option exn * X :=
   match ws with
@@ -224,20 +273,23 @@ Hypothesis Hown1 : forall i, g_own c1 i -> g_own c i.
 Hypothesis Hownb0 : forall i, ownb0 i -> g_own c i /\ i < g_off c.
 Hypothesis Hoffown : forall i, g_off c <= i -> g_own c i.
 Hypothesis Hk1 : forall i, g_keep c1 i -> g_keep c i /\ ~ ownb0 i /\ i < g_off c.
+Hypothesis Hk01 : forall i, g_keep0 c1 i -> g_keep0 c i /\ g_keep c i /\ ~ ownb0 i /\ i < g_off c.
 Hypothesis Hkept : forall i, kept (g_sc c) (g_ce c) i -> ~ g_own c i.
 Hypothesis Hlbls : ce_lbls ceb = ce_lbls (g_ce c).
 Hypothesis J1 : forall g a b n x n' x', J g a n x -> chg (g_own c1) a b -> cle n x n' x' -> J g b n' x'.
+Hypothesis Jf1 : forall g a b n x n' x', Jf g a n x -> chg (g_own c1) a b -> cle n x n' x' -> Jf g b n' x'.
+Hypothesis JJf : forall g a n x, J g a n x -> Jf g a n x.
 Hypothesis Jlbl : forall g a n x, J g a n x -> lblOK (g_sc c) (g_ce c) a (g_n0 c).
 Hypothesis Hbody : forall w g fk' vs n o x os xx g', J g vs n x -> g_off c <= o <= length vs -> g_ctr c <= ctr x ->
    Forall (fun f => g_ctr c <= f_ctr f) fk' -> fb g w = (os, xx, g') ->
-   G (cbody fk' o (ctr x)) os (Tend (cbody fk' o (ctr x)) xx (J g'))
+   G (cbody fk' o (ctr x)) os (Tend (cbody fk' o (ctr x)) xx (wk fk' (J g') (Jf g')))
      (N (g_sc c) (g_pc c1) (SV w :: g_st c1) (fk' ++ g_base c) vs n o x).
 
 Lemma G_fold : forall ws1 g s fin1 os x g',
   G c1 ws1 (Tend c1 fin1 (fun _ _ _ => True)) s -> J g (vars_of s) (lbl_of s) (gx_of s) ->
   g_ctr c <= ctr (gx_of s) ->
   foldgen ws1 g = (os, x, g') ->
-  G c os (Tend c (match x with Some e => Some e | None => fin1 end) (J g')) s.
+  G c os (Tend c (match x with Some e => Some e | None => fin1 end) (Jf g')) s.
 Proof.
   induction ws1; intros g s fin1 os x g' HG HJ Hcs HF; simpl in HF.
   - inversion HF; subst. simpl in HG. destruct HG as (s' & St & Ch & Le & (e & vs & n & gg & St2 & Ch2 & Le2 & HE & _)).
@@ -246,7 +298,7 @@ Proof.
     assert (C : chg (g_own c1) (vars_of s) vs) by (eapply chg_trans; eauto).
     assert (L : cle (lbl_of s) (gx_of s) n gg) by (eapply cle_trans; eauto).
     split; [eapply steps_trans; eauto|]. split; [exact (chg_mono _ _ _ _ Hown1 C)|]. split; [exact L|]. split; [auto|].
-    eapply J1; eauto.
+    apply JJf. eapply J1; eauto.
   - simpl in HG. destruct HG as (fk' & vs3 & n3 & o3 & g3 & St & Ch & Le & [Ho Hfk] & R).
     assert (HJ3 : J g vs3 n3 g3) by (eapply J1; eauto).
     rewrite Hbase, Hsc in St. rewrite Hoff in Ho. rewrite Hctr in Hfk. assert (Ho1 : g_off c <= o3) by lia.
@@ -258,55 +310,87 @@ Proof.
     { intros p q n gg n' gg' [HK Hn] [L' C] Hn'. split; [|eapply cle_trans; eauto].
       destruct fk' as [|f0 fk0]; simpl in *.
       - destruct HK as [L K]. split; [lia|]. intros i Hi. rewrite K by auto. apply C.
-        intros [Hb0|Hb1]; [apply Hk1 in Hi; tauto|apply Hk1 in Hi; lia].
+        intros [Hb0|Hb1]; [apply Hk01 in Hi; tauto|apply Hk01 in Hi; lia].
       - destruct HK as [L K]. split; [lia|]. intros i Hi. rewrite K by auto. apply C. rewrite Hkoff1 in Hi. intros [Hb0|Hb1].
         + destruct Hi as [Hi|Hi]; [apply Hk1 in Hi; tauto|]. apply Hownb0 in Hb0. lia.
         + destruct Hi as [Hi|Hi]; [apply Hk1 in Hi; lia|lia]. }
     assert (Q2 : forall o f a b n gg n' gg', o3 <= o -> Q a n gg -> keepS' c o (f ++ fk') a b -> cle n gg n' gg' -> Q b n' gg').
     { intros o f p q n gg n' gg' Hoo [HK Hn] HC Hn'. split; [|eapply cle_trans; eauto].
       destruct fk' as [|f0 fk0]; simpl in *.
-      - apply keepS'_K in HC. destruct HK as [L K], HC as [L' C]. split; [lia|].
-        intros i Hi. rewrite K by auto. apply C. apply Hk1; auto.
+      - rewrite app_nil_r in HC. destruct HK as [L K]. destruct f as [|f1 f]; simpl in HC; destruct HC as [L' C]; (split; [lia|]);
+          intros i Hi; rewrite K by auto; apply C; [apply Hk01; auto|left; apply Hk01; auto].
       - assert (HC' : keepS c o p q) by (destruct f; simpl in HC; exact HC).
         destruct HK as [L K], HC' as [L' C]. split; [lia|].
         intros i Hi. rewrite K by auto. apply C. rewrite Hkoff1 in Hi.
         destruct Hi as [Hi|Hi]; [left; apply Hk1; auto|right; lia]. }
-    assert (Qtr : forall y vs n gg, Q vs n gg -> okerr (g_n0 c) y -> exists vs4 n4 g4,
-               steps (B (Some y) (fk' ++ g_base c) vs n gg) (B (Some y) (g_base c) vs4 n4 g4) /\
-               chg (g_own c) vs vs4 /\ cle n gg n4 g4).
-    { intros y vs n gg [K Hn] Hy. destruct (R vs n gg K Hn) as [_ R2]. rewrite Hn0 in R2.
-      destruct (R2 y Hy) as (vs4 & n4 & g4 & St4 & Ch4 & Le4). rewrite Hbase in St4.
-      exists vs4, n4, g4. split; [auto|]. split; [exact (chg_mono _ _ _ _ Hown1 Ch4)|auto]. }
-    assert (Hks : forall o p q, keepS c o p q -> keepS (cbody fk' o3 (ctr g3)) o p q).
-    { intros o p q H. exact H. }
-    assert (HQ0 : Q vs3 n3 g3) by (split; [destruct fk'; simpl; [apply keepK_refl|apply keepS_refl]|apply cle_refl]).
+    assert (HQ0 : Q vs3 n3 g3) by (split; [destruct fk'; simpl; [apply keepK0_refl|apply keepS_refl]|apply cle_refl]).
     assert (Hob : forall i, g_own (cbody fk' o3 (ctr g3)) i -> g_own c i).
     { simpl. intros i [Hi|Hi]; [apply Hownb0; auto|apply Hoffown; lia]. }
-    destruct x1 as [ex|].
-    + inversion HF; subst.
+    assert (Hks : forall o p q, keepS c o p q -> keepS (cbody fk' o3 (ctr g3)) o p q).
+    { intros o p q H. exact H. }
+    assert (Hk0 : forall o p q, keepS' c o fk' p q -> keepK0 (cbody fk' o3 (ctr g3)) p q).
+    { intros o p q H. destruct fk'; simpl in *; [exact H|exact (keepS_K _ _ _ _ H)]. }
+    destruct fk' as [|f0 fk0].
+    + (* the inner generator is over *)
+      destruct R as [E R]. subst ws1. simpl in HF.
+      assert (Hfin : forall s1, Q (vars_of s1) (lbl_of s1) (gx_of s1) ->
+                Tend (cbody [] o3 (ctr g3)) x1 (Jf g1) s1 ->
+                Tend c (match x1 with Some e => Some e | None => fin1 end) (Jf g1) s1).
+      { intros s1 HQ1 (e & vs4 & n4 & g4 & St4 & Ch4 & Le4 & HE & HJ4). simpl in St4, Ch4. cbn [cbody g_sc g_ce] in HE.
+        apply encR_lbls with (ce' := g_ce c) in HE; auto.
+        destruct x1 as [ex|].
+        - exists e, vs4, n4, g4. split; [exact St4|]. split; [exact (chg_mono _ _ _ _ Hob Ch4)|]. split; [exact Le4|]. split; [exact HE|exact HJ4].
+        - simpl in HE. subst e.
+          assert (HQ4 : Q vs4 n4 g4) by (eapply Q1; eauto). destruct HQ4 as [K4 Hn4]. simpl in K4.
+          destruct (R vs4 n4 g4 K4 Hn4) as (e5 & vs5 & n5 & g5 & St5 & Ch5 & Le5 & HE5 & _). simpl in St5, Ch5. rewrite Hbase in St5.
+          exists e5, vs5, n5, g5. split; [eapply steps_trans; eauto|].
+          split; [exact (chg_trans _ _ _ _ (chg_mono _ _ _ _ Hob Ch4) (chg_mono _ _ _ _ Hown1 Ch5))|]. split; [eapply cle_trans; eauto|].
+          split; [rewrite <- Hsc, <- Hce; exact HE5|]. eapply Jf1; eauto. }
+      assert (HG1 : G c os1 (Tend c (match x1 with Some e => Some e | None => fin1 end) (Jf g1))
+                      (N (g_sc c) (g_pc c1) (SV a :: g_st c1) ([] ++ g_base c) vs3 n3 o3 g3)).
+      { match type of Hb with G2 _ ?o _ _ ?st0 =>
+          refine (G_ctx (cbody [] o3 (ctr g3)) c [] Q _ _ _ _ eq_refl eq_refl eq_refl eq_refl Hob Hks Hk0 (le_n _) Ho1 Hc3 Hfk Q1 Q2 _ Hfin Hfin o st0 HQ0 Hb) end.
+        intros y vs n gg _ _. exists vs, n, gg. split; [apply steps_refl|]. split; [apply chg_refl|apply cle_refl]. }
       eapply G_pre; [exact St|exact (chg_mono _ _ _ _ Hown1 Ch)|exact Le|].
-      match type of Hb with G _ ?o _ ?st0 => refine (G_ctx (cbody fk' o3 (ctr g3)) c fk' Q _ _ eq_refl eq_refl eq_refl eq_refl Hob Hks (fun a b H => H) (le_n _) Ho1 Hc3 Hfk Q1 Q2 Qtr _ o st0 HQ0 Hb) end.
-      intros s1 HQ1 (e & vs4 & n4 & g4 & St4 & Ch4 & Le4 & HE & HJ4). simpl in St4, Ch4. cbn [cbody g_sc g_ce] in HE.
-      destruct (encR_some _ _ _ _ _ HE) as (y & ->).
-      apply encR_lbls with (ce' := g_ce c) in HE; auto.
-      assert (Hy : okerr (g_n0 c) y) by (eapply encR_okerr; eauto).
-      assert (HQ4 : Q vs4 n4 g4) by (eapply Q1; eauto).
-      destruct HQ4 as [K4 Hn4]. destruct (R vs4 n4 g4 K4 Hn4) as [_ R2]. rewrite Hn0 in R2.
-      destruct (R2 y Hy) as (vs5 & n5 & g5 & St5 & Ch5 & Le5). rewrite Hbase in St5.
-      exists (Some y), vs5, n5, g5.
-      split; [eapply steps_trans; eauto|].
-      split; [exact (chg_trans _ _ _ _ (chg_mono _ _ _ _ Hob Ch4) (chg_mono _ _ _ _ Hown1 Ch5))|]. split; [eapply cle_trans; eauto|].
-      split; [|eapply J1; eauto].
-      eapply encR_stable; [|exact HE]. intros k Hk. apply Ch5. intro Hoo. apply (Hkept k Hk). auto.
-    + destruct (foldgen ws1 g1) as [[os2 x2] g2] eqn:Efg. inversion HF; subst.
-      eapply G_pre; [exact St|exact (chg_mono _ _ _ _ Hown1 Ch)|exact Le|].
-      apply G_app.
-      match type of Hb with G _ ?o _ ?st0 => refine (G_ctx (cbody fk' o3 (ctr g3)) c fk' Q _ _ eq_refl eq_refl eq_refl eq_refl Hob Hks (fun a b H => H) (le_n _) Ho1 Hc3 Hfk Q1 Q2 Qtr _ o st0 HQ0 Hb) end.
-      intros s1 HQ1 (e & vs4 & n4 & g4 & St4 & Ch4 & Le4 & HE & HJ4). simpl in St4, Ch4, HE. subst e.
-      assert (HQ4 : Q vs4 n4 g4) by (eapply Q1; eauto).
-      destruct HQ4 as [K4 Hn4]. destruct (R vs4 n4 g4 K4 Hn4) as [R1 _]. rewrite Hbase in R1.
-      eapply G_pre; [exact St4|exact (chg_mono _ _ _ _ Hob Ch4)|exact Le4|].
-      eapply IHws1; eauto. simpl. destruct Hn4, Le; lia.
+      destruct x1 as [ex|]; inversion HF; subst; [exact HG1|]. rewrite app_nil_r. exact HG1.
+    + assert (Qtr : forall y vs n gg, Q vs n gg -> okerr (g_n0 c) y -> exists vs4 n4 g4,
+               steps (B (Some y) ((f0 :: fk0) ++ g_base c) vs n gg) (B (Some y) (g_base c) vs4 n4 g4) /\
+               chg (g_own c) vs vs4 /\ cle n gg n4 g4).
+      { intros y vs n gg [K Hn] Hy. destruct (R vs n gg K Hn) as [_ R2]. rewrite Hn0 in R2.
+        destruct (R2 y Hy) as (vs4 & n4 & g4 & St4 & Ch4 & Le4). rewrite Hbase in St4.
+        exists vs4, n4, g4. split; [auto|]. split; [exact (chg_mono _ _ _ _ Hown1 Ch4)|auto]. }
+      destruct x1 as [ex|].
+      * inversion HF; subst.
+        eapply G_pre; [exact St|exact (chg_mono _ _ _ _ Hown1 Ch)|exact Le|].
+        assert (Hfin : forall s1, Q (vars_of s1) (lbl_of s1) (gx_of s1) ->
+                  Tend (cbody (f0 :: fk0) o3 (ctr g3)) (Some ex) (wk (f0 :: fk0) (J g') (Jf g')) s1 -> Tend c (Some ex) (Jf g') s1).
+        { intros s1 HQ1 (e & vs4 & n4 & g4 & St4 & Ch4 & Le4 & HE & HJ4). simpl in St4, Ch4, HJ4. cbn [cbody g_sc g_ce] in HE.
+          destruct (encR_some _ _ _ _ _ HE) as (y & ->).
+          apply encR_lbls with (ce' := g_ce c) in HE; auto.
+          assert (Hy : okerr (g_n0 c) y) by (eapply encR_okerr; eauto).
+          assert (HQ4 : Q vs4 n4 g4) by (eapply Q1; eauto).
+          destruct HQ4 as [K4 Hn4]. simpl in K4. destruct (R vs4 n4 g4 K4 Hn4) as [_ R2]. rewrite Hn0 in R2.
+          destruct (R2 y Hy) as (vs5 & n5 & g5 & St5 & Ch5 & Le5). rewrite Hbase in St5.
+          exists (Some y), vs5, n5, g5.
+          split; [eapply steps_trans; eauto|].
+          split; [exact (chg_trans _ _ _ _ (chg_mono _ _ _ _ Hob Ch4) (chg_mono _ _ _ _ Hown1 Ch5))|]. split; [eapply cle_trans; eauto|].
+          split; [|apply JJf; eapply J1; eauto].
+          eapply encR_stable; [|exact HE]. intros k Hk. apply Ch5. intro Hoo. apply (Hkept k Hk). auto. }
+        match type of Hb with G2 _ ?o _ _ ?st0 =>
+          refine (G_ctx (cbody (f0 :: fk0) o3 (ctr g3)) c (f0 :: fk0) Q _ _ _ _ eq_refl eq_refl eq_refl eq_refl Hob Hks Hk0 (le_n _) Ho1 Hc3 Hfk Q1 Q2 Qtr Hfin Hfin o st0 HQ0 Hb) end.
+      * destruct (foldgen ws1 g1) as [[os2 x2] g2] eqn:Efg. inversion HF; subst.
+        eapply G_pre; [exact St|exact (chg_mono _ _ _ _ Hown1 Ch)|exact Le|].
+        apply G_app.
+        assert (Hfin : forall s1, Q (vars_of s1) (lbl_of s1) (gx_of s1) ->
+                  Tend (cbody (f0 :: fk0) o3 (ctr g3)) None (wk (f0 :: fk0) (J g1) (Jf g1)) s1 ->
+                  G c os2 (Tend c (match x with Some e => Some e | None => fin1 end) (Jf g')) s1).
+        { intros s1 HQ1 (e & vs4 & n4 & g4 & St4 & Ch4 & Le4 & HE & HJ4). simpl in St4, Ch4, HE, HJ4. subst e.
+          assert (HQ4 : Q vs4 n4 g4) by (eapply Q1; eauto).
+          destruct HQ4 as [K4 Hn4]. simpl in K4. destruct (R vs4 n4 g4 K4 Hn4) as [R1 _]. rewrite Hbase in R1.
+          eapply G_pre; [exact St4|exact (chg_mono _ _ _ _ Hob Ch4)|exact Le4|].
+          eapply IHws1; eauto. simpl. destruct Hn4, Le; lia. }
+        match type of Hb with G2 _ ?o _ _ ?st0 =>
+          refine (G_ctx (cbody (f0 :: fk0) o3 (ctr g3)) c (f0 :: fk0) Q _ _ _ _ eq_refl eq_refl eq_refl eq_refl Hob Hks Hk0 (le_n _) Ho1 Hc3 Hfk Q1 Q2 Qtr Hfin Hfin o st0 HQ0 Hb) end.
 Qed.
 End Fold.
 
